@@ -410,3 +410,15 @@ M("C31", "renormalisation guard looser than Pulser's check", "kill",
   [(MPSF, "        if abs(norm**4 - 1.0) > 1e-12:", "        if abs(norm**4 - 1.0) > 1e-10:")], "APICOMPAT-norm")
 M("C31", "twin: stricter renormalisation guard", "twin",
   [(MPSF, "        if abs(norm**4 - 1.0) > 1e-12:", "        if abs(norm**4 - 1.0) > 1e-13:")])
+M("C13", "expect_batch: left walk through the conjugate transpose", "kill",
+  [(MPSF, "                center_factor.view(center_factor.shape[0], -1).mT,", "                center_factor.view(center_factor.shape[0], -1).mH,")], "GAUGE")
+M("C10", "orthogonalize: R contracted on its first index in the left move", "kill",
+  [(MPSF, "                self.factors[i - 1], r.to(self.factors[i - 1].device), ([2], [1])", "                self.factors[i - 1], r.to(self.factors[i - 1].device), ([2], [0])")], "GAUGE")
+M("C10", "orthogonalize: Q stored without the transpose", "kill",
+  [(MPSF, "            self.factors[i] = q.mT.view(-1, self.dim, self.factors[i].shape[2])", "            self.factors[i] = q.view(-1, self.dim, self.factors[i].shape[2])")], "GAUGE")
+M("C11", "expect_batch: right walk contracts next with R on the wrong side", "kill",
+  [(MPSF, "                center_factor = torch.tensordot(\n                    r, self.factors[qubit_index + 1].to(r.device), dims=1\n                )",
+    "                center_factor = torch.tensordot(\n                    self.factors[qubit_index + 1].to(r.device), r, dims=1\n                )")], "GAUGE")
+M("C13", "twin: left walk through .mH with conj(R)", "twin",
+  [(MPSF, "                center_factor.view(center_factor.shape[0], -1).mT,", "                center_factor.view(center_factor.shape[0], -1).mH,"),
+   (MPSF, "                self.factors[qubit_index],\n                r.to(self.factors[qubit_index].device),\n                ([2], [1]),", "                self.factors[qubit_index],\n                r.conj().to(self.factors[qubit_index].device),\n                ([2], [1]),")])
